@@ -215,6 +215,10 @@ func HandlerWaiting(
 		return nil, fmt.Errorf("%w: (%s) for %s", am.ErrStateMissing, req.States,
 			mach.Id())
 	}
+	if !mach.Has(req.StatesNot) {
+		return nil, fmt.Errorf("%w: (%s) for %s", am.ErrStateMissing,
+			req.StatesNot, mach.Id())
+	}
 
 	// subscribe
 	var sub <-chan struct{}
